@@ -5,7 +5,7 @@
    tpl_* are read from the templates of the working tree by tools/translators/gen_c04.py on every run: three state booleans of the C
    rendering, and STATEMENT SEQUENCES (C++ vector statements, union constructor / emplace / destroy_current, check-vs-access events).
    Refutations about renderings that are no longer in /repo: coq/theories/History/C04_history.v. *)
-From Verif Require Import Wire Walker WalkerSafe WalkerSafeThm WalkerSafeCpp WalkerSafeCppThm WalkerSafePrims Gen_C04 Gen_C01
+From Verif Require Import Wire Walker WalkerSafe WalkerSafeThm WalkerSafeTie WalkerSafeCpp WalkerSafeCppThm WalkerSafePrims Gen_C04 Gen_C01
                           CPrims CPrimsThm CppPrims CppPrimsThm.
 From Coq Require Import Lia.
 Local Open Scope nat_scope.
@@ -118,6 +118,18 @@ Theorem c04_option_ser_in_bounds : forall ov upf le al t o capB,
   forallb (acc_ok capB) (snd (walk_ser_safe (tree_cfg true ov upf le al) t o capB)) = true.
 Proof. intros ov upf le al t o capB. exact (ser_in_bounds_guarded (tree_cfg true ov upf le al) t o capB eq_refl eq_refl eq_refl). Qed.
 Print Assumptions c04_option_ser_in_bounds.
+
+(* the safety walker and the functional walker are one program: whenever Codec/Walker.v's serializer (which C01 proves equal to the wire
+   specification and, on the C primitives, to the generated code) produces its bytes for a value, the instrumented walker run on the
+   object holding that value follows the same cursor (tie_body) and reports exactly the number of bytes produced - any primitive
+   record whose stores keep the buffer length, any rendering with the specification's length checks *)
+Theorem c04_ser_safe_is_functional : forall P c, plan_ok c -> (forall e n, chk_cap c e n = n) -> cap_sound c ->
+  forall t v buf capB bits, wf_ty t = true -> align t = 8 ->
+  Walker.walk_ser P t v buf capB = Ok bits -> length buf = 8 * capB ->
+  (forall b o, Walker.ws_body P t v buf 0 = Ok (b, o) -> length b = length buf) ->
+  fst (walk_ser_safe c t (embed t v) capB) = Ok (length bits / 8).
+Proof. intros P c Hpl Hk Hc t v buf capB bits Hwf Ha. exact (walk_ser_safe_size P c Hpl Hk t v buf capB bits Hwf Ha Hc). Qed.
+Print Assumptions c04_ser_safe_is_functional.
 
 Theorem c04_ser_errors : forall c, plan_ok c -> forall t o capB,
   (exists n, fst (walk_ser_safe c t o capB) = Ok n) \/
